@@ -35,6 +35,7 @@ QueryOK(o, qi) ==
      /\ \A a, b \in 1..Len(got) : a # b => got[a] # got[b]
      /\ gotdef = [k \in 1..Len(want) |-> want[k].i]
      /\ \A a, b \in 1..Len(got) : (ts[got[a]].d = U /\ ts[got[b]].d # U) => a > b
+     /\ (v.d >= 0 => \A a \in 1..Len(got) : ts[got[a]].d # U)      \* "within distance D": an undefined distance is not
 
 Plain(v) == v.n = 0 /\ v.d < 0
 (* plain closest: the printed distance and SNP list are those of the returned pair *)
